@@ -155,6 +155,36 @@ def LINKFUEL : Nat := 8
 
 def resolve (fs : FS) (f : String) (p : Path) : Option Loc := resolveN fs LINKFUEL f p
 
+/-- three-valued twin of `resolveN`, used only to tell a dangling link (`missing`) from a link
+cycle (`loop`: budget exhausted; h5py fails with "too many links") -/
+inductive R3
+  | found (l : Loc)
+  | missing
+  | loop
+deriving DecidableEq, Repr, Inhabited
+
+def step3 (fs : FS) (follow : String → Path → R3) (acc : R3) (x : String) : R3 :=
+  match acc with
+  | .found (f, P) =>
+    match lookupE fs f (P ++ [x]) with
+    | none => .missing
+    | some (.group _ _) => .found (f, P ++ [x])
+    | some (.dataset _) => .found (f, P ++ [x])
+    | some (.soft t) => follow f t
+    | some (.ext g t) => follow g t
+  | r => r
+
+def start3 (fs : FS) (f : String) : R3 :=
+  match getFile fs f with
+  | none => .missing
+  | some _ => .found (f, [])
+
+def resolve3N (fs : FS) : Nat → String → Path → R3
+  | 0, f, p => p.foldl (step3 fs (fun _ _ => .loop)) (start3 fs f)
+  | n + 1, f, p => p.foldl (step3 fs (resolve3N fs n)) (start3 fs f)
+
+def loops (fs : FS) (f : String) (p : Path) : Bool := resolve3N fs LINKFUEL f p = .loop
+
 /-! ### recognition and reading -/
 
 def coolerEntry : Option Entry → Bool
@@ -240,7 +270,7 @@ def walk (fs : FS) (v : Variant) : Nat → String → Path → Path → List Ite
           (if fmtOK a then [Item.path (disp ++ [x])] else []) ++ walk fs v n f (P ++ [x]) (disp ++ [x])
         | some (.soft t) =>
           match resolve fs f t with
-          | none => [.dangling]
+          | none => if loops fs f t then [.fuel] else [.dangling]
           | some (g, Q) =>
             match lookupE fs g Q with
             | some (.group _ a) =>
@@ -248,7 +278,7 @@ def walk (fs : FS) (v : Variant) : Nat → String → Path → Path → List Ite
             | _ => []
         | some (.ext g0 t) =>
           match resolve fs g0 t with
-          | none => [.dangling]
+          | none => if loops fs g0 t then [.fuel] else [.dangling]
           | some (g, Q) =>
             let d := if v.d5 then t else disp ++ [x]
             match lookupE fs g Q with
